@@ -27,13 +27,13 @@ def run(chk: Check) -> None:
     from .c03 import reraised_ahead_of_catch_all
     reraised_ahead_of_catch_all(chk, 'ESC-awaited-failure')
     # 1. registration: a step that registered awaitables is followed only through WAITING
-    ds = prog.func('workchains.WorkChain._do_step')
+    ds = prog.view(prog.func('workchains.WorkChain._do_step'))   # (a helper that picks the next command is part of the step)
     cfg = cfg_of(ds)
     ff = chk.ctx.facts.analyse(ds)
     rets = [n for n in cfg.nodes if n.kind == 'return']
     waits = [r for r in rets if isinstance(r.ast.value, ast.Call) and last_name(r.ast.value) == 'Wait']
     conts = [r for r in rets if isinstance(r.ast.value, ast.Call) and last_name(r.ast.value) == 'Continue']
-    ok = len(waits) == 1 and len(waits[0].ast.value.args) == 3 and norm(waits[0].ast.value.args[2]) == 'self._awaitables' and norm(waits[0].ast.value.args[0]) == 'self._do_step'
+    ok = len(waits) == 1 and len(waits[0].ast.value.args) == 3 and ff.canon.key(waits[0].ast.value.args[2]) == 'self._awaitables' and norm(waits[0].ast.value.args[0]) == 'self._do_step'
     chk.ob('DOM-barrier-wait', ds, ok, 'the awaitables registered during the step are handed to the WAITING state, which continues with the next outline step', kind='wait-carries-awaitables')
     ok = bool(waits) and all(('T', 'self._awaitables') in ff.at(w) for w in waits) and all(('F', 'self._awaitables') in ff.at(c) for c in conts) and bool(conts)
     chk.ob('DOM-barrier-wait', ds, ok, 'the chain continues directly (Continue) only when nothing was registered; otherwise it waits', kind='continue-only-if-none')
